@@ -314,6 +314,25 @@ fn match_pattern_set_recursive(
     false
 }
 
+/// Record the operator node that a named operator pattern matched.
+///
+/// A named operator pattern can occur several times in a pattern (eg. `y` in
+/// `Where(IsNaN(y), 0, y)`). Like symbols, all occurrences must resolve to
+/// the same node. Returns false if the name is already bound to a different
+/// operator.
+fn bind_operator_key(key: Option<&'static str>, op_node_id: NodeId, symbols: &mut SymbolMap) -> bool {
+    let Some(key) = key else {
+        return true;
+    };
+    match symbols.find(key) {
+        Some(resolved_id) => resolved_id == op_node_id,
+        None => {
+            symbols.add(key, op_node_id);
+            true
+        }
+    }
+}
+
 #[derive(Copy, Clone, Debug, PartialEq)]
 pub struct SymbolPattern {
     name: &'static str,
@@ -468,23 +487,14 @@ impl Pattern {
             (PatternKind::Operator(op_pat), Node::Operator(op_node))
                 if op_pat.matches(op_node, graph, symbols) =>
             {
-                if let Some(key) = op_pat.key {
-                    symbols.add(key, node_id);
-                }
-                true
+                bind_operator_key(op_pat.key, node_id, symbols)
             }
             (PatternKind::Operator(op_pat), Node::Value(_)) => {
                 let Some((op_node_id, op_node)) = graph.get_source_node(node_id) else {
                     return false;
                 };
-                if op_pat.matches(op_node, graph, symbols) {
-                    if let Some(key) = op_pat.key {
-                        symbols.add(key, op_node_id);
-                    }
-                    true
-                } else {
-                    false
-                }
+                op_pat.matches(op_node, graph, symbols)
+                    && bind_operator_key(op_pat.key, op_node_id, symbols)
             }
             (PatternKind::Constant(const_pat), Node::Constant(const_node)) => {
                 const_pat.matches(const_node)
